@@ -764,13 +764,38 @@ fn rule_c01_drain(ctx: &Ctx, out: &mut Vec<Violation>) {
                 }
             }
         }
-        // conservation at the end of the drain (pull subscriptions only)
-        if inst.push.is_none() {
-            let de = m.drain_end.unwrap().0;
-            if let Some(st) = m.stats.iter().rev().find(|s| s.sub == inst.name && s.seq < de && s.seq > drain_start_seq) {
-                if st.found && st.backlog + st.outstanding != 0 {
-                    out.push(v("C01.conservation", "residue", format!("{}: after draining and acknowledging everything, backlog={} outstanding={}", inst.name, st.backlog, st.outstanding)));
+    }
+    // Conservation at the end of the drain: a subscription that still exists (whatever happened to
+    // its topic, whatever deletes were attempted) and whose drain pulls were all answered OK has
+    // handed out everything it holds, and everything was acknowledged: nothing may be left.
+    let de = m.drain_end.unwrap().0;
+    for name in m.sub_creates.keys() {
+        let inst = match m.unique_sub(name) {
+            Some(i) => i,
+            None => continue,
+        };
+        if inst.push.is_some() || inst.deadline_us() > 600 * 1_000_000 {
+            continue;
+        }
+        // every drain pull OK (not NOT_FOUND, not an error): the subscription was there and answered
+        let mut pulls = 0;
+        let mut all_ok = true;
+        for c in m.calls.values() {
+            if c.inv_seq > drain_start_seq && c.inv_seq < de {
+                if let Req::Pull { sub, .. } = &c.req {
+                    if sub == name {
+                        pulls += 1;
+                        all_ok &= c.returned_ok();
+                    }
                 }
+            }
+        }
+        if pulls == 0 || !all_ok {
+            continue;
+        }
+        if let Some(st) = m.stats.iter().rev().find(|s| s.sub == *name && s.seq < de && s.seq > drain_start_seq) {
+            if st.found && st.backlog + st.outstanding != 0 {
+                out.push(v("C01.conservation", "residue", format!("{}: after draining and acknowledging everything it hands out, backlog={} outstanding={} remain", name, st.backlog, st.outstanding)));
             }
         }
     }
@@ -1151,10 +1176,19 @@ fn rule_c12(ctx: &Ctx, out: &mut Vec<Violation>) {
         }
         for dc in dels {
             let del = &m.calls[dc];
-            if !del.returned_ok() {
+            // When did the deletion certainly take effect? When the call returned OK; for a call
+            // that was abandoned, when a later snapshot shows that the subscription is gone.
+            let dinv = del.inv_seq;
+            let dret = if del.returned_ok() {
+                del.ret_seq.unwrap()
+            } else if matches!(del.out, Some(Outcome::Abandoned(_))) {
+                match m.stats.iter().find(|st| st.sub == *sub && st.seq > dinv && !st.found) {
+                    Some(st) => st.seq,
+                    None => continue,
+                }
+            } else {
                 continue;
-            }
-            let (dinv, dret) = (del.inv_seq, del.ret_seq.unwrap());
+            };
             let barrier = match m.barrier_after(dret) {
                 Some(b) => b,
                 None => continue,
